@@ -3,10 +3,8 @@
 # Applies the patch to /repo, runs, and ALWAYS restores /repo. Evidence of these runs goes to a scratch dir.
 id=$1; n=$2; shift 2
 checks="${@:-$id}"
-out=/tmp/seed-$id-out
-patch=$out/patch$n.diff; demo=$out/demo$n.py
-[ -f "$patch" ] || patch=/verif/seeded/$id-$n/patch.diff
-[ -f "$demo" ] || demo=/verif/seeded/$id-$n/demo.py
+patch=/verif/seeded/$id-$n/patch.diff
+demo=/verif/seeded/$id-$n/demo.py
 cd /repo || exit 2
 if [ -n "$(git status --short)" ]; then echo "REPO NOT CLEAN"; exit 2; fi
 res="seed $id-$n:"
@@ -18,7 +16,7 @@ t=$(/venv/bin/python -m pytest -q -p no:cacheprovider --timeout=900 2>&1 | tail 
 rm -f /repo/_seed_demo.py
 cd /verif
 for c in $checks; do
-  for tier in quick thorough; do
+  for tier in ${SEED_TIERS:-quick thorough}; do
     VERIF_EVIDENCE_DIR=/tmp/seed-evidence timeout 3000 ./check $c $tier > /tmp/seedtest-$id-$n-$c-$tier.log 2>&1; rc=$?
     v=$(grep -c "^VIOLATION" /tmp/seedtest-$id-$n-$c-$tier.log)
     res="$res | $c/$tier rc=$rc violations=$v"
